@@ -127,6 +127,9 @@ type Exec struct {
 	depth     int
 	top       *frame
 	permN     int
+	concCap   int
+	panicFrom string
+	lazyForced []string
 	funcsSeen map[*ssa.Function]bool
 	extUsed   map[string]int
 
@@ -248,6 +251,9 @@ func (ex *Exec) concretize(t *Term, max int, why string) uint64 {
 	limit := max
 	if limit <= 0 || limit > ex.eng.MaxConcretize {
 		limit = ex.eng.MaxConcretize
+	}
+	if ex.concCap > limit {
+		limit = ex.concCap
 	}
 	for {
 		v, m := ex.solver.Check(excl, ex.tt.Vars, true)
